@@ -10,4 +10,4 @@ def run(ctx):
     depslib.run_engine_check(ctx, ctx.pid, 400 if ctx.quick else 6000, serial_bias=(ctx.pid == "C13"))
     if ctx.pid == "C02":
         from checks.c01 import contention
-        contention(ctx, parts=("invalid", "wide", "long"), rounds=200)      # the invalid-member probe (a call that panics must not leave named dependencies running) and wide calls (31..1000 dependencies in one call)
+        contention(ctx, parts=("invalid", "wide", "long", "api"), rounds=200)      # the invalid-member probe (a call that panics must not leave named dependencies running) and wide calls (31..1000 dependencies in one call)
